@@ -783,6 +783,17 @@ class revert_intro(Method):
 
         pt = state.get_proof_item(prevs[0])
         assert pt.rule == 'assume', "revert_intro: prev is not assume"
+        nxt = state.get_proof_item(id.incr_id(1))
+        assert nxt.rule == 'intros' and len(nxt.prevs) >= 2 and nxt.prevs[-1] == id and nxt.prevs[-2] == prevs[0], \
+            "revert_intro: can only revert the last assumption of the block concluded from this goal"
+        def cited(prf):
+            for it in prf.items:
+                if it is not nxt and prevs[0] in it.prevs:
+                    return True
+                if it.subproof and cited(it.subproof):
+                    return True
+            return False
+        assert not cited(state.prf.get_parent_proof(id)), "revert_intro: the assumption is used by another line"
         state.set_line(id, 'sorry', th=Thm.implies_intr(pt.th.prop, cur_item.th))
         item = state.get_proof_item(id.incr_id(1))
         state.set_line(id.incr_id(1), item.rule, args=item.args,
